@@ -525,6 +525,43 @@ def r8_body_once_and_forms(ctx):
                    "the path is prefixed with `/` without excluding the asterisk form: `OPTIONS * HTTP/1.1` is forwarded as `OPTIONS /* HTTP/1.1`, a different request")
 
 
+def r10_no_test_that_cannot_match(ctx):
+    """contradiction rule (the code states two beliefs that cannot both hold): a slice `s[s.find(X)..]` starts with X, so a
+    `strip_prefix(Y)` / `starts_with(Y)` on it with another literal Y never matches — the branch that was meant to take what
+    follows (a port after `]`, a value after a separator) is dead and its default is used silently"""
+    def first_char(t):
+        v = const_value(t)
+        if isinstance(v, int):
+            return chr(v) if 0 <= v < 0x110000 else None
+        f = fmt(t)
+        if f.startswith('"') and len(f) > 2:
+            return f[1]
+        return None
+    n = 0
+    bad = []
+    for key, body in ctx.P.scan():
+        if not key.startswith(("client::http_proxy::", "client::socks5::", "server::handler::", "util::")) or key.startswith(("util::cert", "util::tls")):
+            continue
+        o = None
+        for c in body.calls():
+            if (c.norm or "").split("::")[-1] not in ("strip_prefix", "starts_with") or len(c.args) < 2:
+                continue
+            o = o or ctx.origins(body)
+            recv, pat = o.of_operand(c.args[0]), o.of_operand(c.args[1])
+            if not (is_call_term(recv, "::index") and len(recv[3]) == 2 and isinstance(recv[3][1], tuple) and recv[3][1][0] == "agg" and "RangeFrom" in str(recv[3][1][1]) and recv[3][1][3]):
+                continue
+            start = recv[3][1][3][0]
+            if not (is_call_term(start, "str::find", "str::rfind", "::find", "::rfind") and len(start[3]) == 2 and strip_bb(start[3][0]) == strip_bb(recv[3][0])):
+                continue
+            n += 1
+            x, y = first_char(start[3][1]), first_char(pat)
+            if x is not None and y is not None and x != y:
+                bad.append((key, c, x, y))
+    ctx.ob("R17.10", "front-ends:no-prefix-test-that-cannot-match", not bad, bad[0][1].site if bad else "", "%d prefix tests on `s[s.find(X)..]` examined; each asks for X" % n if not bad else
+           "%s tests `s[s.find('%s')..]` for the prefix '%s': that slice begins with '%s', so the test never succeeds and the fallback is taken for every input — e.g. the explicit port of `[::1]:8443` is ignored and "
+           "the default port is dialled" % (ctx.P.owner(bad[0][0]).split("::")[-1], bad[0][2], bad[0][3], bad[0][2]))
+
+
 def run(ctx):
     r9_host_field_name_any_case(ctx)
     r8_body_once_and_forms(ctx)
@@ -537,6 +574,7 @@ def run(ctx):
     r3b_scan_window(ctx)
     r3c_first_terminator(ctx)
     r6_target_derivation(ctx)
+    r10_no_test_that_cannot_match(ctx)
     r7_parsing_totality(ctx)
     r4_rewriting(ctx)
     C16.accept_loop_rules(ctx, "R17.5", HP + "start_http_proxy_server", "http_proxy::handle_http_proxy_connection", "http")
